@@ -120,8 +120,10 @@ type Crash struct {
 // Damage pins one stored-byte fault.
 type Damage struct {
 	File string `json:"file"`
-	Kind string `json:"kind"` // flip | overwrite | truncate | garbage | zero
+	Live bool   `json:"live,omitempty"` // applied while the database is open (standard I/O)
+	Kind string `json:"kind"`           // flip | overwrite | truncate | garbage | zero | transplant
 	Off  int64  `json:"off"`
+	Src  int64  `json:"src,omitempty"` // transplant: the Len bytes at Src (a whole record of the same file) replace those at Off
 	Bit  int    `json:"bit,omitempty"`
 	Len  int    `json:"len,omitempty"`
 	Seed uint64 `json:"seed,omitempty"`
@@ -141,7 +143,7 @@ type Case struct {
 	MapSeed  uint64         `json:"mapseed"`
 	Hostile  bool           `json:"hostile,omitempty"`
 	BaseFile uint32         `json:"basefile,omitempty"` // an empty data file with this id exists before the first Open (the directory of a long-lived database: file ids beyond the varint width boundaries 128 and 16384)
-	Slash    bool           `json:"slash,omitempty"` // the data directory is named with a trailing path separator
+	Slash    bool           `json:"slash,omitempty"`    // the data directory is named with a trailing path separator
 	Crash    *Crash         `json:"crash,omitempty"`
 	Damage   *Damage        `json:"damage,omitempty"`
 	Free     int64          `json:"free,omitempty"`     // simulated free disk space (0 = plenty)
